@@ -185,3 +185,13 @@ Inductive rb_stmt :=
 | RSResult                      (* result *)
 | RSReadUnknown (to_file : bool). (* read_http_unsized_body_to_vec / _to_file(buf.chain(stream) ..).await *)
 Inductive rb_arm := RAErr (e : rb_err) | RABody (stmts : list rb_stmt).
+
+(* read_http_head (src/head.rs): the body of its loop *)
+Inductive rh_err := RHEHeadTooLong | RHEDisconnected | RHETruncated | RHEOther.
+Inductive rh_stmt :=
+| RHTryRead                       (* match Head::try_read(buf) { Ok(head) => return Ok(head), Err(HeadError::Truncated) => {}
+                                       Err(e) => return Err(e.into()), } *)
+| RHReturnIfFull (e : rh_err)     (* if buf.writable().is_empty() { return Err(HttpError::e); } *)
+| RHRead (empty nonempty : rh_err).
+    (* match stream.read(buf.writable()).await { Err(..) | Ok(0) if buf.is_empty() => return Err(HttpError::empty),
+         Err(..) | Ok(0) => return Err(HttpError::nonempty), Ok(n) => buf.wrote(n), } *)
